@@ -54,6 +54,92 @@ func (p *c05Probe) run(class string, api c05API, root *g.Type, tagKey string, do
 	return out
 }
 
+// constraint feeds one literal to a field of kind k that declares the constraint o (range= or
+// options=) through every way a value can reach a field: JSON / YAML number, generic map entry
+// points, pointer field, ,string, the string-valued unmarshallers (form, path, header), env=
+// (alone, on a pointer, overriding a document value). class valid: accepted exactly; fault: rejected.
+// Not fed: default= (the library does not hold a default against the field's own constraint; the
+// statement speaks of the document's values) and slice/map elements (constraints apply to the field).
+func (p *c05Probe) constraint(class string, k g.Kind, o g.Opts, text, what string) int {
+	type src struct {
+		name           string
+		api            c05API
+		tag            string
+		ptr, fs, str   bool
+		env, envAndDoc bool
+	}
+	srcs := []src{
+		{name: "json-number", api: c05JSON, tag: "json"},
+		{name: "yaml-number", api: c05YAML, tag: "json"},
+		{name: "json-map", api: c05Map, tag: "json"},
+		{name: "json-reader", api: c05Reader, tag: "json"},
+		{name: "key", api: c05Key, tag: "key"},
+		{name: "pointer", api: c05JSON, tag: "json", ptr: true},
+		{name: "yaml-pointer", api: c05YAML, tag: "json", ptr: true},
+		{name: "string-option", api: c05JSON, tag: "json", fs: true, str: true},
+		{name: "string-option-pointer", api: c05JSON, tag: "json", fs: true, str: true, ptr: true},
+		{name: "form", api: c05Form, tag: "form", str: true},
+		{name: "form-pointer", api: c05Form, tag: "form", str: true, ptr: true},
+		{name: "path", api: c05Path, tag: "path", str: true},
+		{name: "header", api: c05Header, tag: "header", str: true},
+		{name: "env", api: c05JSON, tag: "json", env: true},
+		{name: "env-yaml", api: c05YAML, tag: "json", env: true},
+		{name: "env-pointer", api: c05JSON, tag: "json", env: true, ptr: true},
+		{name: "env-over-document", api: c05JSON, tag: "json", env: true, envAndDoc: true},
+		{name: "env-form", api: c05Form, tag: "form", env: true},
+	}
+	n := 0
+	for _, sc := range srcs {
+		if k == g.Duration && (sc.str || sc.fs) {
+			continue // a Duration cannot be fed as a bare string through these: error by design, nothing to accept
+		}
+		if sc.env && (k == g.Int64 && class == "valid") {
+			continue // int64 env values are read as durations: acceptance not asserted
+		}
+		if sc.env && sc.ptr && !k.IsNum() {
+			continue
+		}
+		oo := o
+		ft := g.L(k)
+		if sc.ptr {
+			ft = g.PtrTo(ft)
+			oo.Optional = !sc.env
+		}
+		oo.FromString = sc.fs
+		key := "v"
+		if sc.api == c05Header {
+			key = "X-V"
+		}
+		doc := map[string]any{}
+		var env map[string]string
+		switch {
+		case sc.env:
+			oo.Env, env = c05FreshEnv(text)
+			oo.EnvVal = text
+			if sc.envAndDoc {
+				// the document offers a value too (an allowed one where we can tell); the environment wins
+				alt := text
+				if len(o.Options) > 0 {
+					alt = o.Options[0]
+				} else if o.Range != nil {
+					alt = "5" // inside every range of the bracket-form family
+				}
+				doc[key] = g.LeafDoc(k, alt, false)
+			}
+		case sc.str:
+			doc[key] = text
+		default:
+			doc[key] = g.LeafDoc(k, text, false)
+		}
+		if sc.api == c05YAML && !g.YAMLExact(doc) {
+			continue
+		}
+		p.run(class, sc.api, c05One("V", key, ft, oo), sc.tag, doc, env, what+" via "+sc.name)
+		n++
+	}
+	return n
+}
+
 func c05One(name, key string, t *g.Type, o g.Opts) *g.Type {
 	return g.StructOf(g.F(name, key, t, o))
 }
@@ -243,6 +329,42 @@ func TestVerifC05Shapes(t *testing.T) {
 		}
 	}
 
+	// integers in (MaxInt64, MaxUint64]: a YAML reader holds them in a different Go type (uint64) than
+	// smaller ones; whatever each field type does with them, JSON and YAML must agree (pure equivalence)
+	p.family = "big-unsigned"
+	bigs := []string{"9223372036854775807", "9223372036854775808", "9223372036854775809", "10000000000000000000", "12345678901234567890", "18446744073709551614", "18446744073709551615"}
+	bigTypes := []*g.Type{g.L(g.Uint64), g.L(g.Uint), g.L(g.Int64), g.L(g.Int8), g.L(g.Uint8), g.L(g.Float64), g.L(g.Float32), g.L(g.String), g.L(g.Bool), g.L(g.Duration),
+		g.PtrTo(g.L(g.Uint64)), g.PtrTo(g.L(g.Float64)), g.PtrTo(g.L(g.String)),
+		g.SliceOf(g.L(g.Uint64)), g.SliceOf(g.L(g.Float64)), g.SliceOf(g.L(g.String)), g.SliceOf(g.L(g.Int64)),
+		g.MapOf(g.L(g.Uint64)), g.MapOf(g.L(g.Float64)), g.MapOf(g.L(g.String)), g.MapOf(g.SliceOf(g.L(g.Float64)))}
+	for _, x := range bigs {
+		for _, ft := range bigTypes {
+			var dv any = c05N(x)
+			switch ft.K {
+			case g.Slice:
+				dv = arr(c05N("1"), c05N(x))
+			case g.Map:
+				dv = obj("a", c05N(x))
+				if ft.Elem.K == g.Slice {
+					dv = obj("a", arr(c05N(x)))
+				}
+			}
+			for _, o := range []g.Opts{{}, {Optional: true}, {FromString: true}, {Range: &g.Range{L: "0", R: "", LI: true}}} {
+				if (o.FromString || o.Range != nil) && !(ft.K.IsLeaf() || ft.K == g.Ptr) {
+					continue
+				}
+				if o.Range != nil && !ft.K.IsNum() {
+					continue
+				}
+				what := fmt.Sprintf("%s<-%s", c05One("V", "v", ft, o).Fields[0].FieldSig(), x)
+				p.run("free", c05YAML, c05One("V", "v", ft, o), "json", map[string]any{"v": g.Clone(dv)}, nil, what)
+				p.run("free", c05YAML, c05One("V", "v", c05One("W", "w", ft, o), g.Opts{}), "json", map[string]any{"v": map[string]any{"w": g.Clone(dv)}}, nil, what+" nested")
+				p.run("free", c05YAML, c05One("V", "v", g.SliceOf(c05One("W", "w", ft, o)), g.Opts{}), "json", map[string]any{"v": []any{map[string]any{"w": g.Clone(dv)}}}, nil, what+" in []struct")
+				m.Count("big-unsigned-probes", 3)
+			}
+		}
+	}
+
 	p.family = "leaf-options"
 	// ,string and options= on leaves fed with every scalar class (and form unmarshaller fed non-strings)
 	for _, k := range []g.Kind{g.Bool, g.Int8, g.Uint16, g.Float32, g.Float64, g.String, g.Duration, g.Int64} {
@@ -296,16 +418,13 @@ func TestVerifC05Shapes(t *testing.T) {
 							class = "valid"
 						}
 						what := fmt.Sprintf("%s range=%s value %s", k, rg, x)
-						p.run(class, c05JSON, c05One("V", "v", g.L(k), g.Opts{Range: rg}), "json", map[string]any{"v": c05N(x)}, nil, what)
-						p.run(class, c05JSON, c05One("V", "v", g.PtrTo(g.L(k)), g.Opts{Range: rg, Optional: true}), "json", map[string]any{"v": c05N(x)}, nil, what+" ptr,optional")
-						p.run(class, c05JSON, c05One("V", "v", g.L(k), g.Opts{Range: rg, FromString: true}), "json", map[string]any{"v": x}, nil, what+" ,string")
-						p.run(class, c05Form, c05One("V", "v", g.L(k), g.Opts{Range: rg}), "form", map[string]any{"v": x}, nil, what+" form")
+						m.Count("range-probes", int64(p.constraint(class, k, g.Opts{Range: rg}, x, what)))
 						// optional=dep with the dependency present: the field is effectively required, the range still applies
 						dep := g.StructOf(g.F("D", "d", g.L(g.String), g.Opts{Optional: true}), g.F("V", "v", g.L(k), g.Opts{Optional: true, Dep: "d", Range: rg}))
 						p.run(class, c05JSON, dep, "json", map[string]any{"d": "on", "v": c05N(x)}, nil, what+" optional=d")
 						ndep := g.StructOf(g.F("D", "d", g.L(g.String), g.Opts{Optional: true}), g.F("V", "v", g.L(k), g.Opts{Optional: true, Dep: "d", DepNot: true, Range: rg}))
 						p.run(class, c05JSON, ndep, "json", map[string]any{"v": c05N(x)}, nil, what+" optional=!d")
-						m.Count("range-probes", 6)
+						m.Count("range-probes", 2)
 					}
 				}
 			}
@@ -342,26 +461,29 @@ func TestVerifC05Shapes(t *testing.T) {
 
 	p.family = "not-in-options"
 	// options= for every leaf kind: member accepted, non-member rejected (number, string option, form)
-	optsFor := map[g.Kind][3]string{
-		g.Int8: {"5", "-7", "6"}, g.Int64: {"5", "-7", "6"}, g.Uint16: {"5", "7", "6"}, g.Float64: {"0.5", "2", "0.75"}, g.Float32: {"0.5", "2", "0.75"},
-		g.String: {"ab", "cd", "abx"}, g.Duration: {"1s", "5m0s", "7h0m0s"},
-	}
-	for k, o := range optsFor {
-		op := g.Opts{Options: []string{o[0], o[1]}}
+	for _, k := range g.LeafKinds {
+		var o [3]string
+		switch {
+		case k == g.Bool:
+			continue
+		case k.IsInt():
+			o = [3]string{"5", "-7", "6"}
+		case k.IsUint():
+			o = [3]string{"5", "7", "6"}
+		case k.IsFloat():
+			o = [3]string{"0.5", "2", "0.75"}
+		case k == g.String:
+			o = [3]string{"ab", "cd", "abx"}
+		case k == g.Duration:
+			o = [3]string{"1s", "5m0s", "7h0m0s"}
+		}
 		for i, x := range o {
 			class := "valid"
 			if i == 2 {
 				class = "fault"
 			}
-			dv := g.LeafDoc(k, x, false)
 			what := fmt.Sprintf("%s options=%s|%s value %s", k, o[0], o[1], x)
-			p.run(class, c05JSON, c05One("V", "v", g.L(k), op), "json", map[string]any{"v": dv}, nil, what)
-			p.run(class, c05JSON, c05One("V", "v", g.PtrTo(g.L(k)), g.Opts{Options: op.Options, Optional: true}), "json", map[string]any{"v": dv}, nil, what+" ptr,optional")
-			if k != g.Duration {
-				p.run(class, c05JSON, c05One("V", "v", g.L(k), g.Opts{Options: op.Options, FromString: true}), "json", map[string]any{"v": x}, nil, what+" ,string")
-				p.run(class, c05Form, c05One("V", "v", g.L(k), op), "form", map[string]any{"v": x}, nil, what+" form")
-			}
-			m.Count("options-probes", 4)
+			m.Count("options-probes", int64(p.constraint(class, k, g.Opts{Options: []string{o[0], o[1]}}, x, what)))
 		}
 	}
 
